@@ -843,6 +843,16 @@ def input_slices(draw, spec):
             if (a, b) != (0, n):
                 out[d] = [a, b]
     spec['slice'] = out or None
+    if out and spec['fmt'] == 'cloud_rain' and spec.get('nvar') == 3:
+        # the window must not turn the file into one whose size is also a
+        # whole number of 5-variable steps (the format stores no variable
+        # count: such a file is ambiguous by construction, see camxspecs)
+        e = dict(spec)
+        for d, key in SLICE_DIMS:
+            if d in out:
+                e[key] = out[d][1] - out[d][0]
+        if cloud_rain_ambiguous(e):
+            spec['slice'] = None
     return spec['slice']
 
 
@@ -872,6 +882,17 @@ def sliced(spec, m=None):
     out.tflag = m.tflag[ts]
     out.etflag = m.etflag[ts]
     return e, out
+
+
+def slice_is_ambiguous(spec):
+    sl = spec.get('slice')
+    if not sl or spec['fmt'] != 'cloud_rain' or spec.get('nvar') != 3:
+        return False
+    e = dict(spec)
+    for d, key in SLICE_DIMS:
+        if d in sl:
+            e[key] = sl[d][1] - sl[d][0]
+    return cloud_rain_ambiguous(e)
 
 
 def apply_slice(spec, f):
